@@ -116,26 +116,26 @@ CHECKS = {
 
 # Engines and dimensions added after the seeded-change rounds (DESIGN.md §8/§9); appended to the texts above.
 ADDENDA = {
- 'C01': 'Also: split /io admission with the refused side parked at the done hook; numeric and long IDs (common prefixes of 64/255/1024/4096 bytes) through the real mux; refused uploads with a declared Content-Length must be answered at once. Engine aged (refused latecomers after the owner has been attached through many lines / a wait symbol in the script); uploads refused with a declared length must be answered without their body. Engine lockq (one stream held inside the broker under its lock by a stalled operator notice while the halves of an /io request and the last streams of the previous shell queue on the lock in chosen orders).',
- 'C02': 'Also: engine pty (the operator pastes more lines than the 1024-deep queue holds before a shell attaches, on the real binary) and engine tab (Tab/Ctrl+I inserts of 20 B - 1 MiB around every power of two, with and without a shell attached, delivered as exactly the payload plus one newline). Engine tabq (Tab inserts pressed while the held-line queue is full, overlapping inserts, shells that hang up inside an insert: an insert is one contiguous entry). Engine gate (240 admit/release/done schedules of a newcomer\'s halves against a leaving shell with lines entered between all steps: a held line must not be given to an already-refused /io request).',
- 'C03': 'Also: long streams with hundreds of zero-length reads; engine ptyb on the real binary: byte-exact terminal comparison over endpoint x transport (chunked / declared Content-Length) x eager/patient client x ending (mid multibyte sequence, non-UTF-8 tail, dropped), and a terminal whose file description was made non-blocking. Engine quiet (a burst of 2048*k +/- bytes must be on the terminal without further traffic arriving).',
- 'C04': 'Also: intruders inside the tear-down window; engine window (a context that parks inside admission while the program shuts down); a third, slow small-buffer event listener in every second series and a paused listener across >1100 shells; a stream end left exactly behind a full queue before the cancellation; HTTP uploads with a declared length whose client stalls. Engine lockwait (shutdown while the broker is held on a stalled operator notice and newcomers queue behind it); stream end left behind an exactly full queue with the reader back in Read. Every second intruder inside the tear-down window presents the dying shell\'s own ID.',
- 'C05': 'Also: cache replaced under a running listener with SNI and non-SNI handshakes, two listeners racing for one cache path, listeners on port 443 (reported as not explored where 443 cannot be bound), per-run flag order, cache files holding certificate chains of mixed key types written by the harness. Bare and zoned IPv6 callback addresses on 443 listeners (an unbracketed IPv6 literal in a printed URL counts as naming the wrong port); engine chain. Internationalised callback addresses with a non-ASCII last label.',
- 'C06': 'Also: numeric unidirectional IDs; engine replay (internal /io keys observed at the admission hook in ONE broker presented as callback IDs to a FRESH broker); free-running porcupine stress; HTTP race trials whose tokens carry the trial number. Engine selfend (an admitted half of /io ends by itself - EOF, read error, write error - before its sibling is admitted).',
- 'C07': 'Also: template edits that keep size and mtime, template paths that are or pass through symlinks, port-less IPv6 Host headers, listener port classes (ends in 443, starts with 443, ...; unbindable classes reported as not explored). Engine carry (big templates, clients leaving mid-script and templates failing half-way: the next request\'s script is byte-exact its own rendering; GOMAXPROCS 1 and all CPUs, in child processes).',
- 'C08': 'Also: cache files created by a library caller with other certificate lifespans (already expired ... 100 years); engine crash: REAL interrupted writes (child processes killed or failed after exactly p bytes by RLIMIT_FSIZE for every p, optional strace fault injection) followed by later starts on whatever was left behind. Engine foreign (foreign files, links and directories planted at and next to the cache path before a generating start); restart histories with failing starts in between must leave an intact cache alone.',
- 'C09': 'Also: shell endpoint x method x request-body matrix on trees holding same-named files (no File requested notice, no file content for a shell endpoint path); -serve-files-from naming a symlink / symlink chain / dangling link; clients that half-close or reset right after sending; parallel downloads and replacement of the served file. Engine special (canaries named index.html, the shell endpoint names, in-tree names... waiting outside the root for every traversal spelling); engine live (tree changed while served).',
- 'C10': 'Also: link-local (zoned) client addresses; engine broker: refusal tour in gate mode through every refusal reason with printf-looking IDs. Engines xerr and rst (shells ending with transport errors whose text repeats a zoned client address; connections reset on a link-local listener).',
- 'C11': 'Also: engine refusals (every refusal reason leaves exactly one error record); engine logfile (several runs on one -log file, foreign content, cuts while running, -log vs CURLREVSHELL_LOG); engine aborts (clients resetting at every stage: anything the operator is told about has a record); request-shape matrix for the streaming endpoints.',
- 'C12': 'Also: junk that stays connected (refused chunked and fixed-length uploads, requests with an unasked-for unfinished body on /c, files and refused /i), shells staying 17-22 s (35/65 s thorough), shell output uploaded with a declared length, GOMAXPROCS=1 runs, log targets (file, /dev/null, fifo, environment). Engine late (connections opened before the shell completes that speak only later); shells that connect and finish at once; uploads with Expect: 100-continue.',
- 'C13': 'Also: same-server call sequences in one process, URL scheme case, a process-wide TLS session cache installed by the caller. Process configurations (http.DefaultClient with its own Transport / Jar / CheckRedirect / Timeout installed by the embedding process, compared reflectively before and after every call); certificates sharing a subject key identifier; C2 host names with a trailing dot or non-ASCII labels. Listeners judge only connections made by sockets of their own process (positive/negative control per child); a call reset below the listener is repeated once.',
- 'C14': 'Also: deaths by signal; engine e2e (simpleshell.Go against a lagging HTTPS server, HTTP/1.1 and HTTP/2); engine ctx (exec.CommandContext / Cancel / WaitDelay variants, cancellation at scripted points, consumer stalls up to 6.5 s quick / 11 s thorough; an error end without a caller WaitDelay is a violation). Engines leave and leave-e2e (the consumer of Output() closes the reader early - directly or because the HTTP server went away - while the child still runs; every way of ending afterwards); stalls up to 21.5 s after a command that ended by itself.',
+ 'C01': 'Also: split /io admission with the refused side parked at the done hook; numeric and long IDs (common prefixes of 64/255/1024/4096 bytes) through the real mux; refused uploads with a declared Content-Length must be answered at once. Engine aged (refused latecomers after the owner has been attached through many lines / a wait symbol in the script); uploads refused with a declared length must be answered without their body. Engine lockq (one stream held inside the broker under its lock by a stalled operator notice while the halves of an /io request and the last streams of the previous shell queue on the lock in chosen orders). Engine patience (refusals of 14 kinds decided while the operator\'s terminal is stalled for 4-31 s, 65 s thorough).',
+ 'C02': 'Also: engine pty (the operator pastes more lines than the 1024-deep queue holds before a shell attaches, on the real binary) and engine tab (Tab/Ctrl+I inserts of 20 B - 1 MiB around every power of two, with and without a shell attached, delivered as exactly the payload plus one newline). Engine tabq (Tab inserts pressed while the held-line queue is full, overlapping inserts, shells that hang up inside an insert: an insert is one contiguous entry). Engine gate (240 admit/release/done schedules of a newcomer\'s halves against a leaving shell with lines entered between all steps: a held line must not be given to an already-refused /io request). Engine silence (attached shells during 5-31 s of operator silence at broker, in-process HTTP and real-binary level: not a byte, not a flush).',
+ 'C03': 'Also: long streams with hundreds of zero-length reads; engine ptyb on the real binary: byte-exact terminal comparison over endpoint x transport (chunked / declared Content-Length) x eager/patient client x ending (mid multibyte sequence, non-UTF-8 tail, dropped), and a terminal whose file description was made non-blocking. Engine quiet (a burst of 2048*k +/- bytes must be on the terminal without further traffic arriving). Engines patience and patpty (the operator channel / the real binary\'s pty stalls 4-31 s mid-stream, then resumes: shown == sent).',
+ 'C04': 'Also: intruders inside the tear-down window; engine window (a context that parks inside admission while the program shuts down); a third, slow small-buffer event listener in every second series and a paused listener across >1100 shells; a stream end left exactly behind a full queue before the cancellation; HTTP uploads with a declared length whose client stalls. Engine lockwait (shutdown while the broker is held on a stalled operator notice and newcomers queue behind it); stream end left behind an exactly full queue with the reader back in Read. Every second intruder inside the tear-down window presents the dying shell\'s own ID. Engine patience (tear-downs of 20 kinds behind a terminal stalled 6-31 s); engine longlife (one broker serving 12,000 / 120,000 shells in series, IDs up to 64 KiB).',
+ 'C05': 'Also: cache replaced under a running listener with SNI and non-SNI handshakes, two listeners racing for one cache path, listeners on port 443 (reported as not explored where 443 cannot be bound), per-run flag order, cache files holding certificate chains of mixed key types written by the harness. Bare and zoned IPv6 callback addresses on 443 listeners (an unbracketed IPv6 literal in a printed URL counts as naming the wrong port); engine chain. Internationalised callback addresses with a non-ASCII last label. Client TLS capabilities (19 restricted Go client profiles and 17 real-curl restrictions - curves, TLS versions, single suites - each first tried on a plain listener of the harness\'s own).',
+ 'C06': 'Also: numeric unidirectional IDs; engine replay (internal /io keys observed at the admission hook in ONE broker presented as callback IDs to a FRESH broker); free-running porcupine stress; HTTP race trials whose tokens carry the trial number. Engine selfend (an admitted half of /io ends by itself - EOF, read error, write error - before its sibling is admitted). Engines many (70-3000 requests decided during one held tear-down / half-attached / attached state) and skew (50 ms-5 s of real time between the two admissions of an /io request and around the end of a tear-down; log-order oracle).',
+ 'C07': 'Also: template edits that keep size and mtime, template paths that are or pass through symlinks, port-less IPv6 Host headers, listener port classes (ends in 443, starts with 443, ...; unbindable classes reported as not explored). Engine carry (big templates, clients leaving mid-script and templates failing half-way: the next request\'s script is byte-exact its own rendering; GOMAXPROCS 1 and all CPUs, in child processes). Engines hostcurl (the documented one-liner on hosts whose .curlrc restricts curl: tls-max, tlsv1.3, curves, single suites, http1.0/1.1 ...) and tlsclient (restricted Go clients fetching /c).',
+ 'C08': 'Also: cache files created by a library caller with other certificate lifespans (already expired ... 100 years); engine crash: REAL interrupted writes (child processes killed or failed after exactly p bytes by RLIMIT_FSIZE for every p, optional strace fault injection) followed by later starts on whatever was left behind. Engine foreign (foreign files, links and directories planted at and next to the cache path before a generating start); restart histories with failing starts in between must leave an intact cache alone. Engines pathshape / binpathshape (cache paths of 256-3900 bytes: deep, long components up to NAME_MAX, relative forms, dot / dot-dot / doubled-slash spellings).',
+ 'C09': 'Also: shell endpoint x method x request-body matrix on trees holding same-named files (no File requested notice, no file content for a shell endpoint path); -serve-files-from naming a symlink / symlink chain / dangling link; clients that half-close or reset right after sending; parallel downloads and replacement of the served file. Engine special (canaries named index.html, the shell endpoint names, in-tree names... waiting outside the root for every traversal spelling); engine live (tree changed while served). Slow downloaders (8-64 MiB files, clients pausing 4-31 s or trickling, Range requests).',
+ 'C10': 'Also: link-local (zoned) client addresses; engine broker: refusal tour in gate mode through every refusal reason with printf-looking IDs. Engines xerr and rst (shells ending with transport errors whose text repeats a zoned client address; connections reset on a link-local listener). Client text containing literal fmt complaints (exact-rendering oracle, observed behind opshell); client text of 64-900 KiB.',
+ 'C11': 'Also: engine refusals (every refusal reason leaves exactly one error record); engine logfile (several runs on one -log file, foreign content, cuts while running, -log vs CURLREVSHELL_LOG); engine aborts (clients resetting at every stage: anything the operator is told about has a record); request-shape matrix for the streaming endpoints. Engine bighead (stream requests with heads up to 1 MiB - long IDs, queries, many or fat header lines - accepted and refused, on the in-process server and the real binary).',
+ 'C12': 'Also: junk that stays connected (refused chunked and fixed-length uploads, requests with an unasked-for unfinished body on /c, files and refused /i), shells staying 17-22 s (35/65 s thorough), shell output uploaded with a declared length, GOMAXPROCS=1 runs, log targets (file, /dev/null, fifo, environment). Engine late (connections opened before the shell completes that speak only later); shells that connect and finish at once; uploads with Expect: 100-continue. Requests left hanging in the middle (form POST to /c, OPTIONS *, a stalled 64 MiB download), a crowd of 330-390 lingering keep-alive clients, a line entered only 23-31 s after the shell has gone, shells that are over at once (engine atonce), Expect: 100-continue uploads (engine upload).',
+ 'C13': 'Also: same-server call sequences in one process, URL scheme case, a process-wide TLS session cache installed by the caller. Process configurations (http.DefaultClient with its own Transport / Jar / CheckRedirect / Timeout installed by the embedding process, compared reflectively before and after every call); certificates sharing a subject key identifier; C2 host names with a trailing dot or non-ASCII labels. Listeners judge only connections made by sockets of their own process (positive/negative control per child); a call reset below the listener is repeated once. Engine long (chains of 4-641 certificates, pins at every depth).',
+ 'C14': 'Also: deaths by signal; engine e2e (simpleshell.Go against a lagging HTTPS server, HTTP/1.1 and HTTP/2); engine ctx (exec.CommandContext / Cancel / WaitDelay variants, cancellation at scripted points, consumer stalls up to 6.5 s quick / 11 s thorough; an error end without a caller WaitDelay is a violation). Engines leave and leave-e2e (the consumer of Output() closes the reader early - directly or because the HTTP server went away - while the child still runs; every way of ending afterwards); stalls up to 21.5 s after a command that ended by itself. Engine input (61 magic byte sequences - BOMs, NUL, ^D, CR/LF, ESC, IAC ... - leading, ending, alone in and split across chunks of 11 kinds of input reader).',
  'C15': 'Also: many well-formed over-long lines (length bytes up to 0xFF) in the decoder generator.',
- 'C17': 'Also: engine carryOver (a failed or earlier conversion must not influence the next: poisoned directory, same-size same-mtime replacement); byte-order marks, blanks, NUL, ^Z at the very start or end of files. Sources under /proc and other files whose size is reported as 0. Dangling links whose resolution fails with ENOTDIR / ENAMETOOLONG / ELOOP.',
- 'C18': 'Also: payload lines over 64 KiB (tagged and untagged) with rows after them; names that extend another name by a control byte. Payload lines of 1 MiB+1 ... 4 MiB+1.',
+ 'C17': 'Also: engine carryOver (a failed or earlier conversion must not influence the next: poisoned directory, same-size same-mtime replacement); byte-order marks, blanks, NUL, ^Z at the very start or end of files. Sources under /proc and other files whose size is reported as 0. Dangling links whose resolution fails with ENOTDIR / ENAMETOOLONG / ELOOP. Engines history (one Converter through 3-8 From / SetFilter add / replace / delete steps) and meta (permission bits, ownership, times, hard links, sparseness must not change the payload).',
+ 'C18': 'Also: payload lines over 64 KiB (tagged and untagged) with rows after them; names that extend another name by a control byte. Payload lines of 1 MiB+1 ... 4 MiB+1. Engines many (1,000-200,000 TABDOC lines, name widths varying between regions, duplicates far apart, one-table alignment) and keep (earlier results must stay intact after later and concurrent calls).',
  'C19': 'Also: engines lockorder (Ctrl+O during un-muted output with the pause hook), repeat (repeated Ctrl+O must not extend the mute), stalled (pty not drained while a 1-2 MB Ctrl+J message is written during a mute), backlog (status lines queued behind a flood on a lagging terminal when Ctrl+O arrives), byte-exact content (continuation bytes, Latin-1, split multibyte characters) right after the un-muting announcement.',
- 'C20': 'Also: privileged ports and default-location cache faults as uid 65534; every fault again with an openable log file configured; exits with Tab insertions pending (queue full, stalled shell); controlling terminal with redirected standard descriptors; Ctrl+I sources with unusable members. Engines signal and sigfault (SIGCONT/SIGSTOP/SIGTSTP/SIGWINCH and real window changes delivered during the session, then every way of leaving).',
- 'C16': 'Also: Dotted and dashed function names, header lines of 1-8 KiB.',
+ 'C20': 'Also: privileged ports and default-location cache faults as uid 65534; every fault again with an openable log file configured; exits with Tab insertions pending (queue full, stalled shell); controlling terminal with redirected standard descriptors; Ctrl+I sources with unusable members. Engines signal and sigfault (SIGCONT/SIGSTOP/SIGTSTP/SIGWINCH and real window changes delivered during the session, then every way of leaving). Engines badtty (12 kinds of /dev/tty that is there but unusable, in a private mount namespace), long / longpair / longtwin (operands of 300-3900 bytes: the cause words of the short-operand twin must still be in the message) and aged (clean exits after sessions of 11-31 s).',
+ 'C16': 'Also: Dotted and dashed function names, header lines of 1-8 KiB. Engine names (152 base names that mean something to the shell - builtins, reserved words, utilities, variables - under the shells that accept them as function names; names the wrapper text itself uses run contained as uid 64999 with RLIMIT_NPROC 64).',
 }
 
 NOT_YET = {}
